@@ -214,6 +214,10 @@ def handle (args : List String) (impl : String) : String × String :=
   | "hist" :: bs :: init :: ops =>
     hist (parseDec bs) ((init.splitOn ";").map parseHex) ops
   | [op, bs, a] => limbOps op (parseDec bs) a
+  -- `widening_mul` into a caller-chosen result width `br ≠ b1 + b2`: the asserts must fire (no value, hence no
+  -- non-canonical value, is obtainable that way); C02's `widening_mul_generic` is the theorem
+  | ["widebad", b1, b2, br, _, _] =>
+    if parseDec br = parseDec b1 + parseDec b2 then ("bad-op", "bad-op") else ("panic", "panic")
   | ["cmp", bs, as, bs'] =>
     let bits := parseDec bs
     let n := nlimbs bits
